@@ -252,6 +252,15 @@ def mk_cmp(op, l, r):
     if op in ("eq", "ne") and l[0] == "const" and r[0] == "const" and type(l[1]) is type(r[1]) and isinstance(l[1], (str, int)) \
             and not isinstance(l[1], bool):
         return ("const", (l[1] == r[1]) == (op == "eq"))  # "above" == "below": a constant key against a constant table key
+    if op in ("eq", "ne") and l[0] == "tuple" and r[0] == "tuple" and len(l[1]) == len(r[1]) and all(x[0] == "const" for x in r[1]):
+        # (a, b) == (True, False) against a constant key: component by component
+        parts_ = [mk_cmp("eq", a_, b_) for a_, b_ in zip(l[1], r[1])]
+        if all(p_[0] == "const" for p_ in parts_):
+            same_ = all(p_[1] for p_ in parts_)
+            return ("const", same_ if op == "eq" else not same_)
+        if op == "eq" and all(b_[0] == "const" and isinstance(b_[1], bool) for b_ in r[1]):
+            # a key of truth values: (p, q) == (True, False) is p and not q
+            return AND(*[(a_ if b_[1] else NOT(a_)) for a_, b_ in zip(l[1], r[1])])
     if op in ("in", "notin") and l[0] == "const":
         # membership of a constant in a display of constants (a literal table of accepted values) is decided
         keys = None
@@ -2542,6 +2551,8 @@ class Evaluator:
         of one of the class's fields (`cls.model_fields["type"].default`)"""
         if isinstance(knode, ast.Constant):
             return ("const", knode.value)
+        if isinstance(knode, ast.Tuple) and knode.elts and all(isinstance(e_, ast.Constant) for e_ in knode.elts):
+            return ("tuple", tuple(("const", e_.value) for e_ in knode.elts))  # a key made of several constants: (True, False)
         if isinstance(knode, ast.Call) and not knode.args and not knode.keywords and isinstance(knode.func, ast.Attribute):
             try:
                 sy = self.index.resolve_expr(m, knode.func.value)
